@@ -20,7 +20,7 @@ from vf.props.common import harness_error, inconclusive, proved, violation
 ID = "C11"
 LEVEL = "model_checking"
 ITEM_BUDGET_S = {"quick": 300, "thorough": 1200}
-QT = {"quick": 15000, "thorough": 60000}
+QT = {"quick": 15000, "thorough": 30000}
 _TIER = "quick"
 
 META = dict(
@@ -115,6 +115,10 @@ def programs(tier):
         for r in (1, 2, 3):
             Am = [[S(f"m{i}{j}") for j in range(n)] for i in range(r)]
             out += [("matvec", Am, v), ("matvec", Am, v, "func"), ("matvec", Am, ("vbin", "+", v, w), "func"), ("vsum", ("matvec", Am, v)), ("velem", ("matvec", Am, v), r - 1)]
+            # a constant vector applied to a matrix-vector product, on either side and as a list
+            cr = [S(f"c{i}") for i in range(r)]
+            out += [("lincomb", cr, ("matvec", Am, v)), ("lincomb", cr, ("matvec", Am, v), "right"), ("lincomb", cr, ("matvec", Am, v), "list"),
+                    ("lincomb", cr, ("matvec", Am, ("vbin", "+", v, w), "func"), "right")]
             if r == n:
                 out.append(("dot", w, ("matvec", Am, v)))
                 out.append(("dot", v, ("matvec", Am, v)))
